@@ -69,6 +69,19 @@ def gen(rng, tier):
             out += bin_cases(rng, ty, G.grid_bop(rng, 64), G.grid_bop(rng, 64), "grid64")
         for _ in range(600 if tier == "quick" else 60000):
             out += bin_cases(rng, ty, strat_bop(rng, ty), strat_bop(rng, ty), "float")
+        # exactly well-formed dyadic operands with uncertainties below machine epsilon but not zero
+        for _ in range(60 if tier == "quick" else 3000):
+            def tiny_u_bop():
+                e = (rng.choice([53, 54, 55, 60]) if ty == "f64" else rng.choice([24, 25, 26, 30]))
+                uu = 2.0 ** -e
+                kk = G.composition(rng, 8, 2, zero_bias=0)
+                bb = [v / 8.0 for v in kk]
+                j = rng.choice([t for t in range(2) if kk[t] > 0])
+                bb[j] -= uu
+                return [bb[0], bb[1], uu, rng.below(9) / 8.0]
+            x, y = tiny_u_bop(), rng.choice([tiny_u_bop(), G.grid_bop(rng, 8)])
+            out += bin_cases(rng, ty, x, y, "sub_epsilon_uncertainty")
+            out += bin_cases(rng, ty, y, x, "sub_epsilon_uncertainty")
         # discounts
         for _ in range(300 if tier == "quick" else 20000):
             grid = rng.chance(1, 2)
